@@ -78,7 +78,10 @@ Definition feasible (a : list arc) (s : nat) (p : pot) : bool :=
 
 Definition cost_of (c : nat -> Q) (r : list nat) : Q := fold_left (fun a e => a + c e)%Q r 0%Q.
 (* short text of a rational for messages: millionths, rounded down *)
-Definition show_micro (q : Q) : string := show_Z (Qfloor (q * 1000000)) ++ "e-6".
+Definition show_micro (q : Q) : string :=
+  if Z.eqb (Qfloor (q * 1000000)) 0 && negb (Qeq_bool q 0)
+  then show_Z (Qfloor (q * 1000000000000000000)) ++ "e-18"      (* costs far below one millionth *)
+  else show_Z (Qfloor (q * 1000000)) ++ "e-6".
 
 (* verdict on one returned route: None = accepted (optimal up to the relative tolerance tol) *)
 Definition check_opt (g : graph) (d : dir) (ok : nat -> bool) (c : nat -> Q) (tol : Q) (s t : nat) (r : list nat)
